@@ -38,6 +38,22 @@ MUT = {
 }
 
 
+def _unchanged():
+    from spec_classes.types.missing import UNCHANGED
+
+    return UNCHANGED
+
+
+# degenerate call forms that re-assign the stored nested value (nothing handed in by the caller)
+NOARG_OPS = {
+    "update_noargs": lambda attr: (lambda o: getattr(o, f"update_{attr}")()),
+    "transform_noargs": lambda attr: (lambda o: getattr(o, f"transform_{attr}")()),
+    "update_unchanged": lambda attr: (lambda o: getattr(o, f"update_{attr}")(_unchanged())),
+    "transform_identity": lambda attr: (lambda o: getattr(o, f"transform_{attr}")(lambda v: v)),
+    "update_top_identity": lambda attr: (lambda o: o.transform(**{attr: lambda v: v})),
+}
+
+
 def make(fam, tmpl, opname, attr=None):
     NS = FAMILIES[fam]
 
@@ -47,6 +63,11 @@ def make(fam, tmpl, opname, attr=None):
             assume(len(e) == 2)
             o = build_k2(NS, P)
             op = None if opname == "deepcopy" else k2_ops(opname, P, False, True)
+        elif tmpl == "K3" and opname in NOARG_OPS:
+            from vf.specops import Op
+
+            o = build_k3(NS, P, True)
+            op = Op(f"{opname} on {attr}", NOARG_OPS[opname](attr), [], None, None, False, False)
         elif tmpl == "K3":
             o = build_k3(NS, P, True)
             op = None if opname == "deepcopy" else k3_ops(NS, opname, attr, P, False)
@@ -113,15 +134,42 @@ def make_inherit(fam, kind):
     class Derived(Base):  # do_not_copy declared in the subclass for an INHERITED, not re-annotated attribute
         tag: str = "t"
 
+    from spec_classes import Attr
+
+    @spec_class(bootstrap=bootstrap)
+    class AttrDeclared:  # do_not_copy declared on the attribute itself
+        x: int = 1
+        ys: _L[int] = [1, 2]
+        payload: _L[int] = Attr(default_factory=list, do_not_copy=True)
+
+    @spec_class(do_not_copy=["payload"], bootstrap=bootstrap)
+    class DncParent:
+        x: int = 1
+        ys: _L[int] = [1, 2]
+        payload: _L[int] = []
+
+    @spec_class(bootstrap=bootstrap)
+    class Redecorated(DncParent):  # does not mention do_not_copy: the parent's declaration is inherited
+        tag: str = "t"
+
+    @spec_class(bootstrap=bootstrap)
+    class RedecoratedAttr(AttrDeclared):
+        tag: str = "t"
+
     from vf.snapshot import register
 
     register(Base, ["x", "ys", "payload"])
     register(Derived, ["x", "ys", "payload", "tag"])
+    register(AttrDeclared, ["x", "ys", "payload"])
+    register(DncParent, ["x", "ys", "payload"])
+    register(Redecorated, ["x", "ys", "payload", "tag"])
+    register(RedecoratedAttr, ["x", "ys", "payload", "tag"])
+    CLS = {"plain-override": PlainSub, "dnc-inherited": Derived, "dnc-attr-declared": AttrDeclared, "dnc-redecorated": Redecorated, "dnc-attr-redecorated": RedecoratedAttr}
 
     def h(v: int, pre: int, op: int, side: bool, mut: int) -> str:
-        cls = PlainSub if kind == "plain-override" else Derived
+        cls = CLS[kind]
         o = cls(x=v)
-        if kind == "dnc-inherited":
+        if kind.startswith("dnc-"):
             o.payload.append(v)
         prename = pick(["none", "reset_ys_inplace", "reset_inplace", "del_ys"], pre)
         if prename == "reset_ys_inplace":
@@ -147,7 +195,7 @@ def make_inherit(fam, kind):
         check(r is not o, "distinct instance", f"{tag}/same-instance")
         ids_o, ids_r = mutable_ids(o), mutable_ids(r)
         allowed = {}
-        if kind == "dnc-inherited" and opname not in ("reset",):
+        if kind.startswith("dnc-") and opname not in ("reset",):
             check(r.payload is o.payload, "attributes declared do_not_copy are carried into every copy by identity and are never duplicated", f"{tag}/do-not-copy-duplicated", lambda: f"pre={prename}")
             allowed[id(o.payload)] = o.payload
         shared = [x for k_, x in ids_r.items() if k_ in ids_o and k_ not in allowed]
@@ -184,8 +232,12 @@ def obligations(tier):
                 if opname == "deepcopy" and attr == "inner2":
                     continue
                 obs.append(Ob(f"C02.{fam}.K3.{opname}.{attr}", make(fam, "K3", opname, attr), _warm(), f"K3 ({fam}) nested values: result of {opname} on {attr}; follow-up mutation one of {[m[0] for m in MUT['K3']]} on result or receiver", expect=set(), timeout=T))
-        for kind in ("plain-override", "dnc-inherited"):
-            obs.append(Ob(f"C02.{fam}.inherit.{kind}", make_inherit(fam, kind), [(3, pre, op, sd, m) for pre in range(4) for op in range(6) for sd in (False, True) for m in (0, 1)], f"{'plain subclass overriding a mutable default' if kind == 'plain-override' else 'spec subclass declaring do_not_copy for an inherited attribute'} ({fam}); one preparatory in-place reset/del (symbolic, or none), then reset_ys / reset / with_x / deepcopy / update / with_ys, then a follow-up mutation on either side", expect={"ok"}, timeout=T))
+        for opname in NOARG_OPS:
+            for attr in ("inner", "inner2"):
+                obs.append(Ob(f"C02.{fam}.K3.{opname}.{attr}", make(fam, "K3", opname, attr), _warm(), f"K3 ({fam}) nested values: degenerate call form {opname} on {attr} (re-assigns the stored value; nothing is handed in); follow-up mutation on result or receiver", expect=set(), timeout=T))
+        KINDS = {"plain-override": "plain subclass overriding a mutable default", "dnc-inherited": "spec subclass declaring do_not_copy for an inherited attribute", "dnc-attr-declared": "attribute declared Attr(do_not_copy=True)", "dnc-redecorated": "re-decorated subclass (no do_not_copy argument) of a class declaring do_not_copy=[attr]", "dnc-attr-redecorated": "re-decorated subclass of a class with an Attr(do_not_copy=True) attribute"}
+        for kind in KINDS:
+            obs.append(Ob(f"C02.{fam}.inherit.{kind}", make_inherit(fam, kind), [(3, pre, op, sd, m) for pre in range(4) for op in range(6) for sd in (False, True) for m in (0, 1)], f"{KINDS[kind]} ({fam}); one preparatory in-place reset/del (symbolic, or none), then reset_ys / reset / with_x / deepcopy / update / with_ys, then a follow-up mutation on either side", expect={"ok"}, timeout=T))
         for opname in ["deepcopy"] + [x for x in K5_OPS if not x.startswith("setattr")]:
             obs.append(Ob(f"C02.{fam}.K5.{opname}", make(fam, "K5", opname), _warm(), "K5 with a do_not_copy attribute `big`: carried by identity, everything else unshared", expect=set(), timeout=T))
     return obs
